@@ -766,6 +766,21 @@ fn fault_plan(thorough: bool) -> Plan {
             }
         }
     }
+    // a rollback segment that is by far the longest file of the directory (60 one-record commits into
+    // one 64 MiB segment, a 16-bucket table, a one-leaf tree): a file-size limit can then fall inside
+    // the segment's next record — its header, payload or padding — without touching any other file
+    {
+        let mut cfg = cfg_crash();
+        cfg.buckets = 16;
+        cfg.seg_size = 0;
+        cfg.log_len = 100;
+        let mut ops: Vec<Value> = (0..60).map(|i| json!({"c": [[i % 2, "w", 1 + (i % 3)]]})).collect();
+        ops.push(json!({"c": [[2, "w", 1], [0, "d"]]}));
+        let n = ops.len();
+        let mut h = hist("empty", vec!["U4"], &cfg, ops);
+        h["quiet"] = json!(true);
+        cases.push(json!({"mode": "c14", "hist": h, "target": n - 1, "bound": 3, "cqe": false}));
+    }
     // bucket exhaustion: tiny tables; a batch of k key pairs needs k+1 merkle pages (the root page
     // and one depth-1 page per pair); k+1 ranges from "just fits" to 3 more than the table holds
     for buckets in [4u32, 5, 7, 8] {
@@ -786,7 +801,7 @@ fn fault_plan(thorough: bool) -> Plan {
     sort_by_bound(&mut cases);
     let mut p = Plan::new(
         cases,
-        "crashx fault enumeration: for every traced operation of the history set H3 (commits, overlay commits, rollbacks, reopens; see C03) and EVERY mutating or syncing file operation it performs — identified by (file, kind, ordinal) from a fault-free reference run — the history is re-executed and that operation is made to fail with EIO, (a) once and (b) persistently from then on; page writes through the I/O pool fail both at submission (not performed) and at completion (performed, reported failed); and for every page write the raw completion-queue entry is replaced (hook in the io_uring worker, before the result is interpreted) by (c) -EIO while the worker thread's errno holds a stale EINTR — must be reported like any failed write, (d) a short count once — the write must be repeated and the call succeed with exactly the new state after a reopen, (e) a short count every time — the call must end with an error, never hang. Oracle per injected run: the call returns an error (success with the failure inside the call = swallowed failure; panic; hang detected by a per-case watchdog with resume), the handle is poisoned and refuses a further commit, and after drop a fault-free reopen shows exactly the pre-state (or the post-state, only if the meta fsync had completed). Bucket exhaustion: tables of 4/5/7/8 buckets with cluster batches needing more pages than fit: the commit must return an error (not hang), poison, and leave the pre-state. transitions = injected executions.",
+        "crashx fault enumeration: for every traced operation of the history set H3 (commits, overlay commits, rollbacks, reopens; see C03) and EVERY mutating or syncing file operation it performs — identified by (file, kind, ordinal) from a fault-free reference run — the history is re-executed and that operation is made to fail with EIO, (a) once and (b) persistently from then on; page writes through the I/O pool fail both at submission (not performed) and at completion (performed, reported failed); and for every page write the raw completion-queue entry is replaced (hook in the io_uring worker, before the result is interpreted) by (c) -EIO while the worker thread's errno holds a stale EINTR — must be reported like any failed write, (d) a short count once — the write must be repeated and the call succeed with exactly the new state after a reopen, (e) a short count every time — the call must end with an error, never hang; and (f) the whole process runs the operation under a file-size limit (RLIMIT_FSIZE, SIGXFSZ ignored), one limit right below and one at the start of every distinct end offset of the reference trace: the kernel refuses or cuts short every write, append and growth beyond it (synchronous write(2) calls and io_uring alike) — an error must be reported like any other, a success must be real (a follow-up commit and a reopen with the limit lifted work on the new state); one history makes the rollback segment by far the longest file so that the limit can fall inside its next record alone. Oracle per injected run: the call returns an error (success with the failure inside the call = swallowed failure; panic; hang detected by a per-case watchdog with resume), the handle is poisoned and refuses a further commit, and after drop a fault-free reopen shows exactly the pre-state (or the post-state, only if the meta fsync had completed). Bucket exhaustion: tables of 4/5/7/8 buckets with cluster batches needing more pages than fit: the commit must return an error (not hang), poison, and leave the pre-state. transitions = injected executions.",
     );
     p.level = "fault_enumeration";
     p.budget_s = if thorough { 1700 } else { 55 };
